@@ -26,8 +26,17 @@ import os
 import re
 from concurrent.futures import ThreadPoolExecutor
 
-from rkstatic.x_intalg import (Lin, LinEnv, access_path, bool_atom, cast_chain, clean_type, cmp_atom, const_value,
+from rkstatic.x_intalg import (Lin, LinEnv, access_path, cast_chain, clean_type, cmp_atom, const_value,
                                fmt_intervals, irange, is_signed, ite_atom, leaf, lin, negate_cmp, path_str, preserved, flow, clip)
+
+from rkstatic.x_intalg import bool_atom as bool_atom_any
+
+
+def bool_atom(tu, e, env=None):
+    """comparison atom of a Boolean expression (conjunctions are only used by the path enumeration)"""
+    a = bool_atom_any(tu, e, env)
+    return a if a is not None and a[0] == 'cmp' else None
+
 
 LEVEL = 'other'
 EXPLANATION = (
@@ -1474,13 +1483,15 @@ def sym_paths(tu, g, start, stops, st0, on_call=None, limit=256):
             sym_step(tu, st, n, on_call)
         succ = [s for s in blk.succ]
         if blk.cond is not None and len(succ) == 2:
-            a = bool_atom(tu, tu.node(blk.cond), st.env())
+            a = bool_atom_any(tu, tu.node(blk.cond), st.env())
             for si, s in enumerate(succ):
                 if s is None:
                     continue
                 st2 = st.clone()
-                if a is not None:
+                if a is not None and a[0] == 'cmp':
                     st2.conds.append(a if si == 0 else negate_cmp(a))
+                elif a is not None and a[0] == 'and' and si == 0:
+                    st2.conds += [x for x in a[1] if x[0] == 'cmp']
                 st2.events.append(('branch', blk.cond, si == 0))
                 stack.append((s, st2, onpath | {bid}))
         else:
@@ -3296,6 +3307,68 @@ def check_try_run_task(ctx, tu, split_fn, requeue_takes_count=False):
                'followed by exactly one decrement through the same task', loc)
 
 
+def check_thread_identity(ctx, tu):
+    """R-C01-6f: the per-thread pipes have one writer each.  A loop issued from inside a task (nested call) reaches
+    AddTaskSetToPipe / WaitforTask, which pick the pipe by the thread-local thread number; the thread runs its tasks through
+    TryRunTask(threadNum, ...).  Both must be the same number on every thread: wherever TryRunTask is called with something
+    else than the thread-local itself, the thread-local must have been set to that value before."""
+    R = 'R-C01-6f'
+    ctx.describe(R, 'single writer per pipe: on every thread the thread-local thread number used by AddTaskSetToPipe / WaitforTask '
+                    'equals the thread number the thread passes to TryRunTask')
+    fs = tu.fns(q=TS + 'AddTaskSetToPipe', dep=False)
+    G = None
+    if fs and tu.cfg(fs[0]) is not None:
+        for b, i, n in tu.cfg(fs[0]).stmts():
+            if n.get('kind') in CALLS and tu.sd(n).get('q') == TS + 'SplitAndAddTask':
+                s_, obj, args = call_args(tu, n)
+                G = access_path(tu, args[0]) if args else None
+    gv = tu.node(G[1]) if G and len(G) == 3 else None
+    if gv is None or gv.get('kind') != 'VarDecl' or tu.enclosing_fn(gv) is not None or not (gv.get('tls') or gv.get('storageClass') == 'static'):
+        ctx.undecided(R, '[INTERNAL] TaskScheduler::AddTaskSetToPipe', 'the pipe of the calling thread is not selected by a thread-local '
+                      'variable in a recognised way', tu.fn_loc(fs[0]) if fs else F_ENKI)
+        return
+    n_inst = 0
+    for f in tu.functions.values():
+        g = tu.cfg(f)
+        if f['dep'] or g is None:
+            continue
+        calls = [(b, i, n) for b, i, n in g.stmts() if n.get('kind') in CALLS and tu.sd(n).get('q') == TS + 'TryRunTask']
+        if not calls:
+            continue
+        defs = local_defs(tu, [f])
+        env = make_env(tu, defs)
+        assigns = [(b, i, n) for b, i, n in g.stmts() if n.get('kind') == 'BinaryOperator' and n.get('opcode') == '=' and
+                   access_path(tu, tu.kids(n)[0]) == G]
+        for b, i, c in calls:
+            s_, obj, args = call_args(tu, c)
+            inst = '[INTERNAL] %s: %s' % (f['q'].replace('enki::', ''), tu.show(c))
+            n_inst += 1
+            if not args:
+                continue
+            if access_path(tu, args[0]) == G:
+                ctx.ok(R, inst, 'runs tasks under the thread-local thread number itself', tu.loc(c), nontrivial=False)
+                continue
+            want = lin(tu, args[0], env)
+            if want == Lin.atom(('p', G)) and not assigns:
+                ctx.ok(R, inst, 'runs tasks under a local copy of the thread-local thread number', tu.loc(c), nontrivial=False)
+                continue
+            good = [a for a in assigns if g.dominates((a[0].id, a[1]), (b.id, i)) and lin(tu, tu.kids(a[2])[1], env) == want]
+            if good:
+                ctx.ok(R, inst, '`%s` is set to the same value (%s) before the first task runs' % (G[2], tu.show(tu.kids(good[0][2])[1])),
+                       tu.loc(c))
+            elif not [a for a in assigns if g.dominates((a[0].id, a[1]), (b.id, i))]:
+                ctx.violation(R, inst, 'this thread runs tasks as thread `%s`, but the thread-local `%s` is not set on it before that: a parallel loop '
+                              'issued from inside one of those tasks goes through AddTaskSetToPipe / WaitforTask, which use `%s` (still '
+                              'its initial value 0), so the worker writes to and reads from pipe 0 as if it were its owner - two writers '
+                              'on a single-writer pipe: partitions are lost or run twice'
+                              % (tu.show(args[0]), G[2], G[2]), tu.loc(c),
+                              key='%s|%s|%s|thread-number-not-published' % (R, F_ENKI, f['q'].replace('enki::', '')))
+            else:
+                ctx.undecided(R, inst, '`%s` is assigned in this function, but not recognisably to the thread number `%s` passed to '
+                              'TryRunTask before the call' % (G[2], tu.show(args[0])), tu.loc(c))
+    ctx.floor(R, n_inst, 3, 'TryRunTask call sites: worker thread function, WaitforTask, WaitforAll')
+
+
 def check_count_stores(ctx, tu):
     """(d) plain stores to ITaskSet::m_RunningCount only before the task is published"""
     R = 'R-C01-6'
@@ -3960,6 +4033,184 @@ class Ival:
         return irange(tu.sd(n).get('ct'))
 
 
+def deinit(v):
+    """entry-value atoms of a symbolic store ('init', path) rewritten as plain variable atoms ('p', path)"""
+    def at(a):
+        if not isinstance(a, tuple):
+            return a
+        if a[0] == 'init':
+            return ('p', a[1])
+        if a[0] in ('div', 'mod', 'mul'):
+            return (a[0], deinit(a[1]), deinit(a[2]))
+        if a[0] in ('min', 'max'):
+            return (a[0], frozenset(deinit(x) for x in a[1]))
+        if a[0] == 'cmp':
+            return ('cmp', a[1], deinit(a[2]))
+        if a[0] == 'ite':
+            return ('ite', at(a[1]), deinit(a[2]), deinit(a[3]))
+        return a
+    return Lin({at(a): c for a, c in v.t.items()}, v.c)
+
+
+def lin_interval(v, envi, depth=0):
+    """interval of a Lin over the integers, given intervals for some atoms (None = unbounded / unknown)"""
+    if depth > 8:
+        return None
+    lo = hi = v.c
+    for a, c in v.t.items():
+        iv = atom_interval(a, envi, depth + 1)
+        if iv is None:
+            return None
+        x, y = c * iv[0], c * iv[1]
+        lo += min(x, y)
+        hi += max(x, y)
+    return (lo, hi)
+
+
+def atom_interval(a, envi, depth):
+    if a in envi:
+        return envi[a]
+    if not isinstance(a, tuple):
+        return None
+    k = a[0]
+    if k in ('div', 'mod'):
+        x, d = lin_interval(a[1], envi, depth), a[2]
+        if x is None or not d.is_const() or d.c <= 0:
+            return None
+        d = int(d.c)
+        if k == 'div':
+            q = lambda z: -((-z) // d) if z < 0 else z // d
+            return (q(int(x[0])), q(int(x[1])))
+        if x[0] >= 0:
+            return (0, min(d - 1, int(x[1])))
+        return (-(d - 1), d - 1 if x[1] > 0 else 0)
+    if k == 'cmp':
+        facts = envi.get('__facts__', ())
+        if a in facts:
+            return (1, 1)
+        if negate_cmp(a) in facts:
+            return (0, 0)
+        x = lin_interval(a[2], envi, depth)
+        if x is None:
+            return (0, 1)
+        elo, ehi = x
+        t = {'<': (ehi < 0, elo >= 0), '<=': (ehi <= 0, elo > 0), '==': (elo == ehi == 0, elo > 0 or ehi < 0),
+             '!=': (elo > 0 or ehi < 0, elo == ehi == 0)}[a[1]]
+        return (1, 1) if t[0] else (0, 0) if t[1] else (0, 1)
+    if k == 'ite':
+        c = atom_interval(a[1], envi, depth)
+        x, y = lin_interval(a[2], envi, depth), lin_interval(a[3], envi, depth)
+        if c == (1, 1):
+            return x
+        if c == (0, 0):
+            return y
+        if x is None or y is None:
+            return None
+        return (min(x[0], y[0]), max(x[1], y[1]))
+    if k in ('min', 'max'):
+        ivs = [lin_interval(m, envi, depth) for m in a[1]]
+        if any(i is None for i in ivs):
+            return None
+        f_ = min if k == 'min' else max
+        return (f_(i[0] for i in ivs), f_(i[1] for i in ivs))
+    return None
+
+
+def block_count_paths(tu, f, g, call, nbp, ppath, N, B, signs, signed):
+    """value of the block count variable on every path from the function entry to the parallel_for call.
+    Returns ([verdict per path], representative ok-verdict) or None if the paths cannot be followed."""
+    pos = g.where(call['id'])
+    if pos is None or g.back_edges():
+        return None
+    try:
+        paths = sym_paths(tu, g, g.entry, {pos[0]}, Store(tu))
+    except ValueError:
+        return None
+    paths = [st for stop, st in paths if stop == pos[0]]
+    if not paths:
+        return None
+    Bc = Lin.const(B)
+    m = Lin.atom(('mod', N, Bc))
+    dv = Lin.atom(('div', N, Bc))
+    verdicts = []
+    okv = None
+    once = local_defs(tu, [f])
+    for st in paths:
+        # a Boolean local that is set once cannot be true at one branch of the path and false at another
+        seen_b, contradictory = {}, False
+        for e_ in st.events:
+            if e_[0] == 'branch':
+                c_, pos_ = strip_not(tu, tu.node(e_[1]))
+                p_ = access_path(tu, c_) if c_ is not None and c_.get('kind') == 'DeclRefExpr' else None
+                if p_ in once:
+                    t_ = e_[2] == pos_
+                    if seen_b.setdefault(p_, t_) != t_:
+                        contradictory = True
+        if contradictory:
+            continue
+        v = deinit(st.read(nbp))
+        conds = [('cmp', c[1], deinit(c[2])) for c in st.conds]
+        # the path must not be refuted by what is known about the sign of n (guards like `if (n <= 0) return;`,
+        # conditions on values computed from n): interval evaluation of every path condition per sign of n
+        sg = ''
+        rng_ = irange(clean_type(tu.sd(leaf(tu, tu.kids(call)[1])).get('ct'))) or (-(1 << 63), (1 << 64) - 1)
+        for s_ in signs:
+            lo_, hi_ = {'N': (-(1 << 63), -1), 'Z': (0, 0), 'P': (1, (1 << 64) - 1)}[s_]
+            envi = {('p', ppath): (lo_, hi_), '__facts__': set(conds)}
+            okp = not any(negate_cmp(c) in envi['__facts__'] for c in conds)
+            for c in conds:
+                iv_ = lin_interval(c[2], envi)
+                if iv_ is None:
+                    continue
+                elo, ehi = iv_
+                poss = {'<': elo < 0, '<=': elo <= 0, '==': elo <= 0 <= ehi, '!=': not (elo == ehi == 0)}[c[1]]
+                if not poss:
+                    okp = False
+                    break
+            if okp:
+                sg += s_
+        if not sg:
+            continue
+        # conditional forms:  n/B + 1 where n % B != 0 ;  n/B where n % B == 0
+        has_ne = any(c[1] == '!=' and c[2] in (m, -m) for c in conds) or any(c[1] == '<' and c[2] == -m for c in conds)
+        has_eq = any(c[1] == '==' and c[2] in (m, -m) for c in conds)
+        r = None
+        if v == dv + Lin.const(1) and has_ne and (not signed or 'N' not in sg):
+            r = ('ok', 'n/B (+1 if n%B != 0)')
+        elif v == dv and has_eq:
+            r = ('ok', 'n/B (+1 if n%B != 0)')
+        if r is None:
+            r = ceil_form(v, N, B, sg, signed)
+        if r is None:
+            if True:
+                # ceil(n/B) - k / + k on this path
+                for k in (1, 2, -1, -2):
+                    r2 = ceil_form(v + Lin.const(k), N, B, sg, signed)
+                    if r2 is not None and r2[0] == 'ok' and 'P' in sg:
+                        br = [e_ for e_ in st.events if e_[0] == 'branch']
+                        named = [e_ for e_ in br if (strip_not(tu, tu.node(e_[1]))[0] or {}).get('kind') == 'DeclRefExpr']
+                        why = ' and '.join('`%s` is %s' % (show(tu, tu.node(e_[1])), 'true' if e_[2] else 'false')
+                                           for e_ in (named or br)[-1:])
+                        if k > 0:
+                            r = ('bad', 'blocks-too-few',
+                                 'on the path where %s the block count is ceil(n/B) - %d: fewer blocks of at most BLOCK_SIZE items '
+                                 'cannot cover [0, n) - either the last items are lost or a block is made larger than BLOCK_SIZE'
+                                 % (why or 'the count is adjusted', k))
+                        else:
+                            r = ('bad', 'blocks-too-many',
+                                 'on the path where %s the block count is ceil(n/B) + %d: the extra block starts at or beyond n'
+                                 % (why or 'the count is adjusted', -k))
+                        break
+        if r is None:
+            return None
+        verdicts.append(r)
+        if r[0] == 'ok' and r[1] not in ('zero', 'nonpositive'):
+            okv = r
+    if not verdicts:
+        return None
+    return verdicts, (okv or verdicts[0])
+
+
 def ceil_form(NB, N, B, signs, signed):
     """classify a block-count normal form.  returns ('ok', name) | ('bad', key, text) | None"""
     at = NB.single_atom()
@@ -4218,6 +4469,18 @@ def check_blocks(ctx, tu, cfgname):
         Bl = Lin.atom(('p', bp))
         NB = lin(tu, args[0], env)
         cf = ceil_form(NB, N, B, signs, signed)
+        nbp = access_path(tu, args[0])
+        if cf is None and nbp is not None and len(nbp) == 3 and nbp not in defs:
+            # the block count lives in a local that is assigned more than once (`if (...) ++numBlocks;`): follow the paths
+            # to the call and decide the value on each of them under its path conditions
+            pr_ = block_count_paths(tu, f, g, call, nbp, ppath, N, B, signs, signed)
+            if pr_ is not None:
+                verdicts, cf = pr_
+                vb = [v for v in verdicts if v[0] == 'bad']
+                if vb:
+                    for v in vb:
+                        ctx.violation(R, inst, v[2], loc, key=key(v[1]))
+                    continue
         if cf is None:
             und.append('block count `%r` is not a recognised form of ceil(n/B)' % NB)
         elif cf[0] == 'bad':
@@ -4939,6 +5202,7 @@ def run(ctx):
     check_try_run_task(ctx, tu_enki, split_fn if split_fn is not None else find_split_task(tu_enki), bool(takes))
     n = check_count_stores(ctx, tu_enki)
     check_pipe_protocol(ctx, tu_enki)
+    check_thread_identity(ctx, tu_enki)
     ctx.floor('R-C01-6(d)', n, 1, 'the reset of m_RunningCount in AddTaskSetToPipe')
     n6 = sum(1 for o in ctx.obl if o['rule'] == 'R-C01-6')
     ctx.floor('R-C01-6', n6, 4, 'SplitTask, SplitAndAddTask, TryRunTask, the count reset')
